@@ -84,7 +84,7 @@ T_CG = 'pv/callgraph.py name/attribute based call resolution (dynamic dispatch t
 T_TY = 'pv/tyeng.py structural type inference (annotations in penman/types.py are taken as given)'
 T_DOC = 'the documented behaviour transcribed in spec/*.json (docs/notation.rst, docs/api, command-line help)'
 
-_p('C01', ['R20', 'R8g', 'R8f', 'R8d', 'R8e', 'R45', 'R23lex', 'R69', 'R19', 'R70'],
+_p('C01', ['R20', 'R8g', 'R8f', 'R8d', 'R8e', 'R45', 'R23lex', 'R69', 'R19', 'R70', 'R71'],
    'option-taint abstract interpretation of the formatter; regex automata for the adjacency of written pieces',
    'R20: in penman/_format.py the values of indent and compact can reach only whitespace pieces (taint analysis over every '
    'string the formatter concatenates or joins); content, order and presence of the other pieces do not depend on them. R8g: '
@@ -254,7 +254,7 @@ _p('C19', ['R10', 'R9', 'R41', 'R16', 'R56', 'R37', 'R18', 'R59', 'R8d', 'R8e', 
    'raised, no StopIteration escapes. R8d/R8e: the token classes of TRIPLE_RE are the documented ones.',
    'Equality of the parsed list with the written list for all symbol/string contents is not decided.',
    'Reaching-definition and language facts; necessary conditions.', [TRUST_RE, T_CFG])
-_p('C20', ['R24', 'R25', 'R12', 'R42', 'R7', 'R13', 'R20', 'R31', 'R38', 'R2', 'R53'],
+_p('C20', ['R24', 'R25', 'R12', 'R42', 'R7', 'R13', 'R20', 'R31', 'R38', 'R2', 'R53', 'R71', 'R72'],
    'CFG order of pipeline calls with interprocedural summaries; guard facts per option; argument threading',
    'R24: on every path through process/_process_in/_process_out the operations occur in the documented order (spec/pipeline.json). '
    'R25: every documented option is defined, feeds its own entry of the option dicts, and guards exactly its own operation. '
